@@ -76,10 +76,9 @@ Section Parse.
   Definition header_of (c : content) : bytes := get_raw d [c_hl c].
   Definition body_of (c : content) : bytes := get_raw d [c_bl c].
 
-  (* MessageContent.lines = header.lines + body.lines - 1  (-1 for a part
-     without any line) *)
+  (* MessageContent.lines = max(header.lines + body.lines - 1, 0) *)
   Definition lines_of (c : content) : Z :=
-    (Z.of_nat (length (c_hl c) + length (c_bl c)) - 1)%Z.
+    Z.max (Z.of_nat (length (c_hl c) + length (c_bl c)) - 1) 0.
 
   (* BaseLoadedMessage._get_subpart for a non-empty section (numbers >= 1):
      None = IndexError *)
@@ -171,7 +170,7 @@ Section BodyStructure.
     match c with
     | Node hl bl k subs =>
       let size := length (get_raw d [hl; bl]) in
-      let lines := (Z.of_nat (length hl + length bl) - 1)%Z in
+      let lines := Z.max (Z.of_nat (length hl + length bl) - 1) 0 in
       match k with
       | CtMulti _ =>
         option_map BsMulti
